@@ -43,6 +43,24 @@ def path_model_check(ctx):
                        "explain": "the model of std::path used by the -execdir theorems no longer matches the library"})
 
 
+def command_word(ctx, forest):
+    """{} is replaced in the command word as in the arguments (C09_command_word): the file itself can be the program"""
+    d = os.path.join(forest.dir, b"cw")
+    os.makedirs(os.path.join(d, b"e"))
+    with open(os.path.join(d, b"e", b"s.sh"), "wb") as f:
+        f.write(b'#!/bin/sh\nprintf "ran %s" "$0"; for a in "$@"; do printf " <%s>" "$a"; done; echo\n')
+    os.chmod(os.path.join(d, b"e", b"s.sh"), 0o755)
+    for args, want in ((["e", "-name", "s.sh", "-exec", "{}", "a{}b", ";", "-printf", "T %p\n"], b"ran e/s.sh <ae/s.shb>\nT e/s.sh\n"),
+                       (["e", "-name", "s.sh", "-exec", "./{}", "x", ";"], b"ran ./e/s.sh <x>\n"),
+                       (["e", "-name", "s.sh", "-execdir", "{}", "{}", ";"], b"ran ./s.sh <./s.sh>\n")):
+        p = subprocess.run([fw.FIND] + args, stdout=subprocess.PIPE, stderr=subprocess.PIPE, cwd=d, env=xc.ENV, timeout=60)
+        ctx.count(("command-word", tuple(args)), True, "command-word")
+        if p.stdout != want or p.returncode != 0:
+            ctx.violation("find %s: output %r (exit %d, %s); {} in the command word is the file too: %r" % (" ".join(args), p.stdout, p.returncode, p.stderr[:80], want),
+                          {"property": "C09", "kind": "command-word", "find_args": args, "output": p.stdout.decode("utf-8", "replace"), "exit": p.returncode,
+                           "stderr": p.stderr.decode("utf-8", "replace")[:200], "expected": want.decode()})
+
+
 def run(ctx):
     rng = ctx.rng
     path_model_check(ctx)
@@ -59,7 +77,9 @@ def run(ctx):
             # a starting point that ends in "..": the entry is named ./.. from its parent directory (depth 0 only)
             dotdot = rng.random() < 0.15
             if dotdot:
-                root = nm + rng.choice([b"/..", b"/../", b"/./.."])
+                # ... or in ".": named ./. from the directory itself - through a link too, where ./NAME from one level up would be the link
+                os.symlink(nm, os.path.join(forest.dir, b"L%d" % k))
+                root = rng.choice([nm, nm, b"L%d" % k]) + rng.choice([b"/..", b"/../", b"/./..", b"/.", b"/./", b"//."])
             tmpls = [rng.choice(TEMPLATES) for _ in range(rng.randint(0, 4))]
             status = rng.choice(["0", "0", "1", "255", "kill"])
             rec = os.path.join(forest.dir, b"rec%d" % k)
@@ -81,9 +101,9 @@ def run(ctx):
             for v, m in zip(visits, mout):
                 argv_s, cwd_s = m.split(" ")
                 argv = [fw.unhex(x) for x in argv_s.split(",")][2:]    # the recorder logs what follows "record"
-                cwd = forest.dir if cwd_s == "none" else os.path.normpath(os.path.join(forest.dir, fw.unhex(cwd_s)))
+                cwd = forest.dir if cwd_s == "none" else os.path.realpath(os.path.join(forest.dir, fw.unhex(cwd_s)))
                 exp.append((cwd, argv))
-            got_n = [(os.path.normpath(c), a) for c, a in got]
+            got_n = [(os.path.realpath(c), a) for c, a in got]
             printed = p.stdout.split(b"\0")[:-1]
             exp_printed = visits if status == "0" else []
             ctx.count((nm, root, tuple(tmpls), execdir, status, ctx.seed), any(b"{}" in t for t in tmpls),
@@ -123,6 +143,7 @@ def run(ctx):
                            "invocations": [[c.decode("utf-8", "replace"), [fw.hexs(x) for x in a]] for c, a in got_n] if isinstance(got_n, list) else None,
                            "expected": [[c.decode("utf-8", "replace"), [fw.hexs(x) for x in a]] for c, a in exp] if isinstance(exp, list) else None,
                            "printed": [fw.hexs(x) for x in printed], "expected_printed": [fw.hexs(x) for x in exp_printed]})
+        command_word(ctx, forest)
         kc.argv_not_utf8_find(ctx, "C09", forest.dir, "template")
         ctx.sample({"templates": [t.decode() for t in TEMPLATES[:6]]})
     finally:
